@@ -2237,7 +2237,10 @@ def check_c16(rep, tier, seed, wd, replay):
                 elif gk != wk:
                     probs.append("Go %s read of a Python-written file returns %d messages, Python wrote %d (sequence differs)" % (c["id"].split("_")[-1], len(gk), len(wk)))
             elif (o["head"] or "").startswith("messages ok"):
-                probs.append("Go read of a Python-written file ended with %s" % o["end"])
+                po = w["opts"]
+                indexable = po["repeat_schemas"] and po["repeat_channels"] and po["index"]["chunk"] and po["use_chunking"]
+                if c["id"].endswith("_scan") or indexable:
+                    probs.append("Go read of a Python-written file ended with %s" % o["end"])
         report_case(rep, c, probs[:2], cr.read_replay)
     cov = summarize(rep, len(files) + len(pfiles) * 4, len(files) + len(pfiles),
                     "Go->Python: workloads (valid UTF-8) written by the Go writer in random uncompressed configurations, read by python/mcap NonSeekingReader (always) and SeekingReader (when the summary carries all indexes), CRC validation on: header, messages with channel/schema, attachments, metadata, statistics, log-time order and reverse; Python->Go: workloads written by python/mcap Writer across its options (chunk size, index types, repeated channels/schemas, chunking, statistics, summary offsets, CRCs), decoded by the independent spec decoder and read by the Go lexer, scan, indexed and log-time readers (also compared with the Coq models)",
